@@ -5,12 +5,20 @@
    (Model/EvalSpec.v), not by the evaluator model; the evaluator model and the token-level
    parser model are compared as well (their equality with den / the grammar is Props/C08.v). *)
 From Coq Require Import List NArith ZArith Bool QArith Qcanon.
-From Okv Require Import Base.Maps Base.Dec Model.Amount Model.Book Model.EvalSpec Model.ExprParse Run.LedgerCase.
+From Okv Require Import Base.Maps Base.Dec Model.Amount Model.Book Model.Query Model.EvalSpec Model.ExprParse Run.LedgerCase.
 Import ListNotations.
 
 (* result of Ledger::eval / `okane primitive eval`: an amount or an error kind
    (1..8 = eval_code; 50 = the text did not parse; 0 = anything else) *)
 Inductive robs := RAmt (a : amount) | RErr (k : N) | RPanic.
+
+(* the same seven observations on ledgers that first declare display precisions
+   (`commodity X` / `format 1,000.00 X` for every (X, decimals) of f_fmts) *)
+Record fobs := {
+  f_fmts : list (cid * nat);
+  f_eval : robs; f_cli : robs;
+  f_posting : lobs; f_cost : lobs; f_lot : lobs; f_assert : lobs; f_assign : lobs
+}.
 
 Record case := {
   c_tree : vexpr;              (* generated tree = how the text must parse *)
@@ -22,11 +30,18 @@ Record case := {
   c_cost : lobs;               (* A  1 AAPL @ EXPR / B   *)
   c_lot : lobs;                (* A  1 AAPL {EXPR} / B   *)
   c_assert : lobs;             (* A  0 = EXPR / B        *)
-  c_assign : lobs              (* A  = EXPR / B          *)
+  c_assign : lobs;             (* A  = EXPR / B          *)
+  c_declared : option fobs     (* ... all seven again under declared precisions *)
 }.
 Definition C (t : vexpr) (ts : list token) (p : option vexpr) (e c : robs) (o1 o2 o3 o4 o5 : lobs) : case :=
   {| c_tree := t; c_tokens := ts; c_parsed := p; c_eval := e; c_cli := c;
-     c_posting := o1; c_cost := o2; c_lot := o3; c_assert := o4; c_assign := o5 |}.
+     c_posting := o1; c_cost := o2; c_lot := o3; c_assert := o4; c_assign := o5; c_declared := None |}.
+Definition CF (t : vexpr) (ts : list token) (p : option vexpr) (e c : robs) (o1 o2 o3 o4 o5 : lobs)
+           (fm : list (cid * nat)) (fe fc : robs) (f1 f2 f3 f4 f5 : lobs) : case :=
+  {| c_tree := t; c_tokens := ts; c_parsed := p; c_eval := e; c_cli := c;
+     c_posting := o1; c_cost := o2; c_lot := o3; c_assert := o4; c_assign := o5;
+     c_declared := Some {| f_fmts := fm; f_eval := fe; f_cli := fc; f_posting := f1; f_cost := f2;
+                           f_lot := f3; f_assert := f4; f_assign := f5 |} |}.
 
 (* ---- equality of trees ---- *)
 Definition ocid_eqb (a b : option cid) : bool :=
@@ -125,10 +140,14 @@ Definition bind_d {A} (d : dval + eval_err) (f : dval -> A + eval_err) : A + eva
 
 Section Spec.
   Variable ap : bool.
+  (* index of the transaction among the entries: 0, or the number of declarations before it *)
+  Variable ei : nat.
   Definition two_postings (o : lobs) (chk : oposting -> oposting -> bool) : bool :=
     match o with LOk [(_, [p0; p1])] _ => chk p0 p1 | _ => false end.
   Definition is_eval_err (o : lobs) (e : eval_err) : bool :=
-    match o with LErr 0 (XEval k) => (k =? eval_code e)%N | _ => false end.
+    match o with LErr k (XEval c) => Nat.eqb k ei && (c =? eval_code e)%N | _ => false end.
+  Definition is_err_at (o : lobs) (f : xerr -> bool) : bool :=
+    match o with LErr k x => Nat.eqb k ei && f x | _ => false end.
 
   Definition spec_value (t : vexpr) (o : robs) : bool :=
     match bind_d (den_v t) d_to_amount with
@@ -147,8 +166,8 @@ Section Spec.
     match bind_d (den_v t) d_to_single with
     | inr e => is_eval_err o e
     | inl (c, x) =>
-        if qc_zero x then match o with LErr 0 XZeroExchangeRate => true | _ => false end
-        else if (c =? c_stock)%N then match o with LErr 0 XExchangeWithAmountCommodity => true | _ => false end
+        if qc_zero x then is_err_at o (fun e => match e with XZeroExchangeRate => true | _ => false end)
+        else if (c =? c_stock)%N then is_err_at o (fun e => match e with XExchangeWithAmountCommodity => true | _ => false end)
         else two_postings o (fun p0 p1 => stored p0 p1 [(c_stock, 1%Qc)] (Some (c, x)) [(c, - x)%Qc])
     end.
   Definition spec_assert (t : vexpr) (o : lobs) : bool :=
@@ -157,10 +176,10 @@ Section Spec.
     | inl None => two_postings o (fun p0 p1 => stored p0 p1 [] None [])
     | inl (Some (c, x)) =>
         if qc_zero x then two_postings o (fun p0 p1 => stored p0 p1 [] None [])
-        else match o with
-             | LErr 0 (XAssertion 0 computed diff) => amount_cmp ap computed [] && amount_cmp ap diff [(c, x)]
-             | _ => false
-             end
+        else is_err_at o (fun e => match e with
+                                   | XAssertion 0 computed diff => amount_cmp ap computed [] && amount_cmp ap diff [(c, x)]
+                                   | _ => false
+                                   end)
     end.
   Definition spec_assign (t : vexpr) (o : lobs) : bool := spec_posting t o.
 End Spec.
@@ -168,8 +187,11 @@ End Spec.
 Definition presult_is (r : presult (vexpr * list token)) (t : vexpr) : bool :=
   match r with POk (t', []) => vexpr_eqb t' t | _ => false end.
 
-Definition model_value (t : vexpr) : amount + eval_err :=
-  match eval_v t with inl v => ev_to_amount v | inr e => inr e end.
+(* Ledger::eval on a processed ledger that declares the precisions fm *)
+Definition fmt_state (fm : formats) : bstate := {| s_bal := []; s_fmt := fm; s_events := []; s_txns := [] |}.
+Definition model_value_on (fm : formats) (t : vexpr) : amount + eval_err := ledger_eval (fmt_state fm) t.
+Definition model_value (t : vexpr) : amount + eval_err := model_value_on [] t.
+Definition declare (fm : list (cid * nat)) : list entry := map (fun p => EFormat (fst p) (snd p)) fm.
 
 (* Does the exact value have a finite decimal expansion?  Then Decimal's 28-digit division is
    exact (the generator keeps inexact quotients at the root only) and values are compared
@@ -212,8 +234,17 @@ Definition classify (c : case) : N :=
   let shape := match c_parsed c with Some p => vexpr_eqb p t | None => false end in
   let spec :=
     shape && spec_value ap t (c_eval c) && spec_value ap t (c_cli c)
-    && spec_posting ap t (c_posting c) && spec_rate ap t (c_cost c) && spec_rate ap t (c_lot c)
-    && spec_assert ap t (c_assert c) && spec_assign ap t (c_assign c) in
+    && spec_posting ap 0 t (c_posting c) && spec_rate ap 0 t (c_cost c) && spec_rate ap 0 t (c_lot c)
+    && spec_assert ap 0 t (c_assert c) && spec_assign ap 0 t (c_assign c)
+    && match c_declared c with
+       | None => true
+       | Some f =>
+           (* declared display precisions change none of the answers: exact values everywhere *)
+           let n := length (f_fmts f) in
+           spec_value ap t (f_eval f) && spec_value ap t (f_cli f)
+           && spec_posting ap n t (f_posting f) && spec_rate ap n t (f_cost f) && spec_rate ap n t (f_lot f)
+           && spec_assert ap n t (f_assert f) && spec_assign ap n t (f_assign f)
+       end in
   let model :=
     presult_is (parse_value_expr (c_tokens c)) t
     && robs_cmp ap (c_eval c) (model_value t) && robs_cmp ap (c_cli c) (model_value t)
@@ -221,7 +252,18 @@ Definition classify (c : case) : N :=
     && lobs_cmp ap (c_cost c) (process (pos_cost t))
     && lobs_cmp ap (c_lot c) (process (pos_lot t))
     && lobs_cmp ap (c_assert c) (process (pos_assert t))
-    && lobs_cmp ap (c_assign c) (process (pos_assign t)) in
+    && lobs_cmp ap (c_assign c) (process (pos_assign t))
+    && match c_declared c with
+       | None => true
+       | Some f =>
+           let d := declare (f_fmts f) in
+           robs_cmp ap (f_eval f) (model_value_on (f_fmts f) t) && robs_cmp ap (f_cli f) (model_value_on (f_fmts f) t)
+           && lobs_cmp ap (f_posting f) (process (d ++ pos_posting t))
+           && lobs_cmp ap (f_cost f) (process (d ++ pos_cost t))
+           && lobs_cmp ap (f_lot f) (process (d ++ pos_lot t))
+           && lobs_cmp ap (f_assert f) (process (d ++ pos_assert t))
+           && lobs_cmp ap (f_assign f) (process (d ++ pos_assign t))
+       end in
   if spec && model then 0%N else if spec then 1%N else 2%N.
 
 Definition verdicts (cs : list case) : list N := map classify cs.
